@@ -61,6 +61,7 @@ type Stats struct {
 	Dials, Refused, DialTimeouts, Accepted int
 	Reads, Writes, PartialWrites           int
 	ReadTimeouts, WriteTimeouts            int
+	ExpiredDeadlineReadsWithDataWaiting    int // reads issued with a deadline already in the past although data was waiting
 	Resets, FdReuses, AbortiveCloses       int
 	BytesRead                              map[string]int
 }
@@ -401,6 +402,16 @@ func (c *TCPConn) opErr(op string, err error) error {
 // Read is net.Conn.Read
 func (c *TCPConn) Read(p []byte) (int, error) {
 	simrt.Yield("simnet.Read")
+	// a deadline that has already passed when the call is made fails the read at once, whether or not data is waiting (Go's
+	// poller checks the deadline before it tries the system call); a deadline that expires while the call waits competes with
+	// the arrival of data as before
+	if !c.closed && !c.pair.rst && len(p) > 0 && !c.rdl.IsZero() && !c.rdl.After(time.Now()) {
+		c.w.Stats.ReadTimeouts++
+		if c.rxLen > 0 {
+			c.w.Stats.ExpiredDeadlineReadsWithDataWaiting++
+		}
+		return 0, c.opErr("read", os.ErrDeadlineExceeded)
+	}
 	for {
 		if c.closed {
 			return 0, c.opErr("read", net.ErrClosed)
@@ -709,6 +720,37 @@ func (w *World) ResetAll(filter func(c *TCPConn) bool) {
 	for _, c := range w.conns {
 		if filter(c) && !c.pair.rst && !c.closed {
 			c.pair.reset()
+		}
+	}
+}
+
+// ProcessDied is what the kernel does with the sockets of the system under test when its process is killed: its listeners are
+// closed (the port becomes free, connections in the backlog are reset) and its connections are reset
+func (w *World) ProcessDied() {
+	var addrs []string
+	for a, l := range w.listeners {
+		if l.SUT && !l.closed {
+			addrs = append(addrs, a)
+		}
+	}
+	sort.Strings(addrs)
+	for _, a := range addrs {
+		l := w.listeners[a]
+		l.closed = true
+		delete(w.listeners, a)
+		w.freeFD(l.fd)
+		for _, c := range l.backlog {
+			c.pair.reset()
+		}
+		l.backlog = nil
+		l.notify()
+	}
+	for _, c := range w.conns {
+		if c.hasFD && !c.closed {
+			c.pair.reset()
+			c.closed = true
+			c.w.freeFD(c.fd)
+			c.hasFD = false
 		}
 	}
 }
